@@ -25,6 +25,8 @@ PID = "C01"
 
 def expected_text(k, t, cfg):
     body = gdiff.expand(t, cfg)
+    if len(k) == 2:
+        return k + body          # combined diff: both marker columns are always shown
     if cfg.keep:
         return k + body
     return body
@@ -126,6 +128,12 @@ def gen_cases(tier, seed):
         tok = gdiff.Tok()
         secs = [gdiff.gen_section(r, tok, kind="diffu") for _ in range(r.randint(1, 3))]
         cases.append(("diff-u", {"pre": [], "sections": secs}, gdiff.rand_cfg(r, color_only=False)))
+    # combined diffs (`diff --cc`, two marker columns)
+    for i in range(n // 10):
+        r = vlib.case_rng(seed, PID, ("cc", i))
+        tok = gdiff.Tok()
+        secs = [gdiff.gen_section(r, tok, kind=r.choice(["cc", "cc", "mod"])) for _ in range(r.randint(1, 3))]
+        cases.append(("combined", {"pre": gdiff.gen_log_wrapper(r) if r.random() < 0.5 else [], "sections": secs}, gdiff.rand_cfg(r, color_only=False)))
     # small-scope sweep: every hunk body over {ctx,-,+}^<=L x buffer sizes x next-section kind
     import itertools
     L = 4 if tier == "quick" else 6
@@ -188,13 +196,13 @@ def main(tier, replay=None):
         for s in d["sections"]:
             chk.count("section:" + s["kind"])
         nontriv = len(d["sections"]) >= 2 or any(
-            {"-", "+"} <= {k for k, _ in h["body"]} for s in d["sections"] for h in s["hunks"])
+            {"-", "+"} <= {c_ for k, _ in h["body"] for c_ in k} for s in d["sections"] for h in s["hunks"])
         chk.case((tuple(lines), cfg.key()), nontriv, {"cfg": cfg.as_dict(), "input": lines[:14], "n_lines": len(lines)})
-        if not cfg.color_only and kind != "diff-u":
+        if not cfg.color_only and kind not in ("diff-u", "combined"):
             sd = vm.ask("delta_sides", cfg.tabs, cfg.B, ",".join(vlib.hexs(l) for l in lines))
             chk.count("theorem_side_condition:" + sd)
         # the line state machine model covers git's output; plain `diff -u` streams are decided by the oracle alone
-        m = gdiff.render_items(gdiff.model_items(vm, lines, cfg), cfg) if kind != "diff-u" else rows
+        m = gdiff.render_items(gdiff.model_items(vm, lines, cfg), cfg) if kind not in ("diff-u", "combined") else rows
         if m != rows:
             mism += 1
             if mism <= 2:
@@ -209,7 +217,7 @@ def main(tier, replay=None):
                            "kinds": [s["kind"] for s in d["sections"]]})
     chk.oblige("correspondence:state-machine-rows", mism == 0, f"{mism} of {len(cases)} diffs render differently from the model")
     chk.extra["traces_validated_against_impl"] = len(cases) - mism
-    chk.assumptions = ["model scope: git two-way diffs, unified view, non-raw header styles; combined diffs, conflict regions and plain diff -u are covered by the black-box oracle of the thorough tier only",
+    chk.assumptions = ["model scope: git two-way diffs, unified view, non-raw header styles; combined diffs (`diff --cc`) and plain `diff -u` streams are decided by the black-box token oracle alone (both tiers); merge-conflict regions are not generated here (C11's known finding F12 concerns them)",
                        "grapheme clusters = scalar values on the generator's alphabet"]
     vm.close()
     return chk.finish()
